@@ -893,6 +893,8 @@ class SyncObj(object):
             newEntries = message.get('entries', [])
             serialized = message.get('serialized', None)
             self.__leaderCommitIndex = leaderCommitIndex = message['commit_index']
+            # Last log index known to match the leader's log after this message
+            verifiedLogIdx = None
 
             # Regular append entries
             if 'prevLogIdx' in message:
@@ -955,15 +957,19 @@ class SyncObj(object):
                             self.__doChangeCluster(clusterChangeRequest)
 
                 self.__sendNextNodeIdx(node, nextNodeIdx=nextNodeIdx, success=True)
+                verifiedLogIdx = nextNodeIdx - 1
 
             # Install snapshot
             elif serialized is not None:
                 if self.__serializer.setTransmissionData(serialized):
                     self.__loadDumpFile(clearJournal=True)
                     self.__sendNextNodeIdx(node, success=True)
+                    verifiedLogIdx = self.__getCurrentLogIndex()
 
-            if leaderCommitIndex > self.__raftCommitIndex:
-                self.__raftCommitIndex = min(leaderCommitIndex, self.__getCurrentLogIndex())
+            if verifiedLogIdx is not None:
+                newCommitIndex = min(leaderCommitIndex, verifiedLogIdx)
+                if newCommitIndex > self.__raftCommitIndex:
+                    self.__raftCommitIndex = newCommitIndex
 
             self.__raftLog.setRaftCommitIndex(self.__raftCommitIndex)
 
